@@ -808,7 +808,8 @@ class Frame2D(CoordinateFrame):
         return tuple("custom:{}".format(t) for t in ph_type)
 
     def coordinates(self, *args):
-        args = [args[i] for i in self.axes_order]
+        # (the arguments are paired with the units in the order given, as in
+        # every other frame: a composite frame hands each member its own axes)
         # a quantity is converted to the frame's unit, a plain number gets it
         coo = tuple([arg * un if not hasattr(arg, "to") else arg.to(un) for arg, un in zip(args, self.unit)])
         return coo
